@@ -2,7 +2,7 @@ import HavocVerif.Basic.Proto
 import HavocVerif.Model.Db
 /-
   Driver for C10.  Every operation line carries
-     <ok|PANIC:…> Lagents=… Llinks=… Ragents=… Rlinks=… Rdangling=… Rlisteners=… mid=<call:dangling~…|->
+     <ok|PANIC:…> Lagents=… Llinks=… Ragents=… Rlinks=… Rdangling=… Rlisteners=… Rwrite=<ok|LOST:…|-> mid=<call:dangling~…|->
   L = the live teamserver after the operation, R = what reopening a copy of the database
   file yields, mid = the same reopening at every interface-level database call inside the
   operation (kill points between statements).
@@ -36,6 +36,8 @@ def step (st : St) (l : Line) : St × Verdict :=
       kv "Rdangling" l.impl, kv "Rlisteners" l.impl, kv "mid" l.impl with
   | some res, some la, some ll, some ra, some rl, some rd, some rlst, some mid =>
     if res.startsWith "PANIC:" then (st', .specFail ("C10.panic." ++ (res.drop 6).toString) s!"{l.op} panics")
+    else if ((kv "Rwrite" l.impl).getD "ok").startsWith "LOST" then
+      (st', .specFail "C10.restart-writes-lost" s!"after {l.op} {l.args.take 2}: the database was reopened and restored the way Teamserver.Start does; what is recorded afterwards is not there at the next restart ({(kv "Rwrite" l.impl).getD ""})")
     else if rd ≠ "-" then
       (st', .specFail "C10.dangling" s!"after {l.op} {l.args.take 2}: TS_Links names {rd}, an agent that a restart does not reload")
     else if idsOf ra ≠ idsOf la then
